@@ -2,12 +2,13 @@
 (* C10 - trace validation: one recorded run of the real adlt::utils::buffer_sort_messages per case.
 
    trace lines (ndjson), all times in ticks relative to the case's base (the unit is the driver's choice and does
-   not matter: the contract is linear), idx = 0-based position of a message in the input:
+   not matter: the contract is linear).  A message's identity is uid = its 0-based position in the input (a tag in
+   the payload); its index FIELD (DltMessage::index) is separate data and may be unset / repeated:
      {"ev":"reset","case":n,"hdr":{"D":d,"W":w,"base":b,
                                    "table":[{"id":i,"start":s},...],            the lifecycle table id |-> start
-                                   "msgs":[{"lc":i,"rx":t,"ts":t,"ctrl":bool},...]}}   the input, in order
-     {"ev":"out","idx":i,"intact":b}    one per message handed to the outflow closure (intact: equal to the input
-                                        message in every field; idx is read from a tag in the payload)
+                                   "msgs":[{"index":k,"lc":i,"rx":t,"ts":t,"ctrl":bool},...]}}   the input, in order
+     {"ev":"out","uid":i,"index":k,"intact":b}   one per message handed to the outflow closure (uid from the payload tag,
+                                        index = its index field, intact: equal to input message uid in every field)
      {"ev":"end"}                       buffer_sort_messages returned Ok
      {"ev":"err"} / {"ev":"panic",..}   it returned Err although the outflow never fails / it panicked: no action matches
 
@@ -16,17 +17,21 @@
    table counting as start 0 (absolute, i.e. -base).  boundOK (also evaluated here) = reception times never
    decrease, every rx - calc <= D, and every lifecycle is in the table (narrower reading: the ordering claim
    needs a defined lifecycle start).
-     Out(i): i is pending (no invention, no duplicate), the message is unchanged; if boundOK its key (calc, idx)
-             is greater than the previous key (ordered by calculated time, ties in original order).
+     Out(u): u is pending (no invention, no duplicate), the message is unchanged - for EVERY input, whatever its index
+             fields are; if boundOK its calculated time is not smaller than the previous one, and - only when the
+             input's index fields increase strictly along the input (narrower reading: then "original order" and
+             index order coincide) - ties come in original order.  With repeated / unordered index fields no order
+             among equal calculated times is required.
      End:    nothing is pending (no loss).                                                                 *)
 EXTENDS Integers, Sequences, FiniteSets, TLC, Json, IOUtils
 
 Rec == ndJsonDeserialize(IOEnv.TRACE)
 
-VARIABLES l, case, phase, hl, pending, lastC, lastI, bound, viol
-vars == <<l, case, phase, hl, pending, lastC, lastI, bound, viol>>
+VARIABLES l, case, phase, hl, pending, lastC, lastI, bound, ties, viol
+vars == <<l, case, phase, hl, pending, lastC, lastI, bound, ties, viol>>
 
-Init == l = 1 /\ case = -1 /\ phase = "idle" /\ hl = 0 /\ pending = {} /\ lastC = 0 /\ lastI = -1 /\ bound = FALSE /\ viol = {}
+Init == /\ l = 1 /\ case = -1 /\ phase = "idle" /\ hl = 0 /\ pending = {} /\ lastC = 0 /\ lastI = -1 /\ bound = FALSE
+        /\ ties = FALSE /\ viol = {}
 
 Ev(e) == l <= Len(Rec) /\ Rec[l].ev = e /\ l' = l + 1
 Cur == Rec[l]
@@ -38,11 +43,13 @@ CalcOf(h, m) == IF m.ctrl THEN m.rx ELSE Min2(StartOf(h, m.lc) + m.ts, m.rx)
 BoundOK(h) == /\ \A i \in 1..Len(h.msgs) : /\ InTable(h, h.msgs[i].lc)
                                            /\ h.msgs[i].rx - CalcOf(h, h.msgs[i]) <= h.D
               /\ \A i \in 1..(Len(h.msgs) - 1) : h.msgs[i].rx <= h.msgs[i + 1].rx
+\* index fields strictly increasing along the input: index order = original order
+IndexOrdered(h) == \A i \in 1..(Len(h.msgs) - 1) : h.msgs[i].index < h.msgs[i + 1].index
 
 Reset == /\ Ev("reset")
          /\ case' = Cur.case /\ hl' = l /\ pending' = 0..(Len(Cur.hdr.msgs) - 1)
-         /\ LET b == BoundOK(Cur.hdr) IN bound' = b /\ PrintT(<<"BOUND", Cur.case, b>>)   \* coverage information only
-         /\ lastC' = 0 /\ lastI' = -1
+         /\ LET b == BoundOK(Cur.hdr) IN bound' = b /\ PrintT(<<"BOUND", Cur.case, b, IndexOrdered(Cur.hdr)>>)   \* coverage information only
+         /\ lastC' = 0 /\ lastI' = -1 /\ ties' = IndexOrdered(Cur.hdr)
          /\ phase' = "running"
          /\ viol' = IF phase = "running" THEN viol \cup {case} ELSE viol     \* previous case never ended
 
@@ -50,27 +57,28 @@ Hdr == Rec[hl].hdr
 KeyLT(c1, i1, c2, i2) == c1 < c2 \/ (c1 = c2 /\ i1 < i2)
 
 Out == /\ Ev("out") /\ phase = "running"
-       /\ Cur.idx \in pending                                        \* a message of the input, not yet delivered
-       /\ Cur.intact                                                 \* unaltered
-       /\ LET c == CalcOf(Hdr, Hdr.msgs[Cur.idx + 1]) IN
-          /\ (bound /\ lastI >= 0 => KeyLT(lastC, lastI, c, Cur.idx))   \* ordered by (calculated time, index)
-          /\ lastC' = c /\ lastI' = Cur.idx
-       /\ pending' = pending \ {Cur.idx}
-       /\ UNCHANGED <<case, phase, hl, bound, viol>>
+       /\ Cur.uid \in pending                                        \* a message of the input, not yet delivered
+       /\ Cur.intact /\ Cur.index = Hdr.msgs[Cur.uid + 1].index        \* unaltered
+       /\ LET c == CalcOf(Hdr, Hdr.msgs[Cur.uid + 1]) IN
+          /\ (bound /\ lastI >= 0 => IF ties THEN KeyLT(lastC, lastI, c, Cur.uid)   \* by calculated time, ties in original order
+                                              ELSE lastC <= c)                        \* by calculated time
+          /\ lastC' = c /\ lastI' = Cur.uid
+       /\ pending' = pending \ {Cur.uid}
+       /\ UNCHANGED <<case, phase, hl, bound, ties, viol>>
 
 End == /\ Ev("end") /\ phase = "running" /\ pending = {}
-       /\ phase' = "ended" /\ UNCHANGED <<case, hl, pending, lastC, lastI, bound, viol>>
+       /\ phase' = "ended" /\ UNCHANGED <<case, hl, pending, lastC, lastI, bound, ties, viol>>
 
 Matches == ENABLED Out \/ ENABLED End
 Reject == /\ l <= Len(Rec) /\ Cur.ev # "reset" /\ phase = "running" /\ ~Matches
           /\ PrintT(<<"CASE_REJECTED", case, l, ToJson(Cur)>>)
           /\ l' = l + 1 /\ phase' = "rejected" /\ viol' = viol \cup {case}
-          /\ UNCHANGED <<case, hl, pending, lastC, lastI, bound>>
+          /\ UNCHANGED <<case, hl, pending, lastC, lastI, bound, ties>>
 SkipRest == /\ l <= Len(Rec) /\ Cur.ev # "reset" /\ phase \in {"rejected", "ended", "idle"}
             /\ l' = l + 1
             /\ IF phase = "ended" THEN viol' = viol \cup {case} /\ phase' = "rejected"   \* events after `end`
                                   ELSE UNCHANGED <<viol, phase>>
-            /\ UNCHANGED <<case, hl, pending, lastC, lastI, bound>>
+            /\ UNCHANGED <<case, hl, pending, lastC, lastI, bound, ties>>
 
 Next == Reset \/ Out \/ End \/ Reject \/ SkipRest
 Spec == Init /\ [][Next]_vars
